@@ -301,6 +301,26 @@ Proof.
 Qed.
 End L9.
 
+(* ---------- a disconnect with nothing buffered ---------- *)
+Lemma drain_nil : forall s, s_in_buf s = [] -> drain s = s.
+Proof. intros s H. unfold drain. rewrite H. cbn [length drain_message_in]. destruct (negb (s_in_open s)); [reflexivity|]. rewrite H. reflexivity. Qed.
+
+(* what handleDisconnectState does once the buffered frames have been handled *)
+Definition disconnect_now (s0 : sess) : sess :=
+  let do_on_logout := is_logged_on (s_st s0)
+                      || match s_st s0 with SLogout => true | SLogon => initiator s0 | _ => false end in
+  let s1 := if do_on_logout then log_cb s0 CbOnLogout else s0 in
+  let s2 := if c_reset_on_disconnect (s_cfg s1) then drop_and_reset s1 else s1 in
+  let s3 := if s_out_open s2 then upd_chan s2 false (s_in_open s2) (s_in_buf s2) true else s2 in
+  upd_chan s3 (s_out_open s3) false [] (s_closed s3).
+
+Lemma hd_unfold dr s : handle_disconnect_state dr s =
+  if is_connected (s_st s) && negb (is_connected (s_st (dr s))) then dr s else disconnect_now (dr s).
+Proof. reflexivity. Qed.
+
+Lemma hd_no_buffer : forall s, s_in_buf s = [] -> handle_disconnect_state drain s = disconnect_now s.
+Proof. intros s H. rewrite hd_unfold, (drain_nil s H). destruct (is_connected (s_st s)); reflexivity. Qed.
+
 (* ---------- the reachable-state invariant at event boundaries ---------- *)
 (* a connected session has both channels open; a disconnected one has both closed and nothing buffered *)
 Definition Boundary (s : sess) : Prop :=
@@ -310,14 +330,13 @@ Definition Boundary (s : sess) : Prop :=
 (* while the outbound channel is closed, nothing re-opens it: drainMessageIn and everything it calls *)
 Definition OutClosed (s : sess) : Prop := s_out_open s = false.
 
-Lemma hd_out_closed dr s : (forall x, OutClosed x -> OutClosed (dr x)) -> OutClosed (handle_disconnect_state dr s).
+Lemma hd_out_closed dr s : (forall x, OutClosed x -> OutClosed (dr x)) -> OutClosed s -> OutClosed (handle_disconnect_state dr s).
 Proof.
-  intros Hdr. unfold handle_disconnect_state, OutClosed.
-  match goal with |- s_out_open (upd_chan (dr ?x) _ _ _ _) = false =>
-    assert (Hx : OutClosed x) by
-      (unfold OutClosed; match goal with |- context [if s_out_open ?y then _ else _] => destruct (s_out_open y) eqn:E end;
-       [reflexivity | exact E]);
-    specialize (Hdr _ Hx); exact Hdr end.
+  intros Hdr Hs. unfold handle_disconnect_state, OutClosed. cbv zeta.
+  pose proof (Hdr _ Hs) as H0. unfold OutClosed in H0.
+  destruct (is_connected (s_st s) && negb (is_connected (s_st (dr s)))); [exact H0|].
+  cbn [s_out_open upd_chan].
+  match goal with |- s_out_open (if s_out_open ?y then _ else _) = false => destruct (s_out_open y) eqn:E; [reflexivity | exact E] end.
 Qed.
 
 Lemma set_state_out_closed dr s next : (forall x, OutClosed x -> OutClosed (dr x)) -> OutClosed s -> OutClosed (set_state_with dr s next).
@@ -325,7 +344,7 @@ Proof.
   intros Hdr Hs. unfold set_state_with, OutClosed.
   destruct (negb (is_connected next)); [|exact Hs].
   destruct (is_connected (s_st s)).
-  - pose proof (hd_out_closed dr s Hdr) as H. unfold OutClosed in H. destruct (s_pending_stop _); exact H.
+  - pose proof (hd_out_closed dr s Hdr Hs) as H. unfold OutClosed in H. destruct (s_pending_stop _); exact H.
   - destruct (s_pending_stop s); exact Hs.
 Qed.
 
@@ -345,19 +364,36 @@ Proof.
   apply IH. apply incoming_out_closed; [exact IH | exact Hs].
 Qed.
 
+(* ---------- Boundary through the drain: what is buffered is handled first, in a state that still satisfies Boundary ---------- *)
+Section BoundaryDrain.
+Variable dr : sess -> sess.
+Hypothesis dr_boundary : forall x, Boundary x -> Boundary (dr x).
+
 (* leaving the connected states closes both channels and empties the buffer *)
-Lemma set_state_disconnects s next : is_connected next = false -> Boundary s ->
-  let s' := set_state s next in
-  s_st s' = next /\ s_out_open s' = false /\ s_in_open s' = false /\ s_in_buf s' = [].
+Lemma hd_disconnects s : Boundary s -> is_connected (s_st s) = true ->
+  let r := handle_disconnect_state dr s in
+  s_out_open r = false /\ s_in_open r = false /\ s_in_buf r = [].
 Proof.
-  intros Hn [Hc Hd]. unfold set_state, set_state_with. rewrite Hn. cbn [negb].
-  destruct (is_connected (s_st s)) eqn:Ec.
-  - pose proof (hd_out_closed drain s (fun x => drain_out_closed _ x)) as H. unfold OutClosed in H.
-    destruct (s_pending_stop _); cbn; repeat split; try exact H; reflexivity.
-  - destruct (Hd eq_refl) as (D1 & D2 & D3). destruct (s_pending_stop s); cbn; repeat split; assumption.
+  intros Hb Hc. unfold handle_disconnect_state. cbv zeta. rewrite Hc. cbn [andb].
+  pose proof (dr_boundary s Hb) as [B1 B2].
+  destruct (is_connected (s_st (dr s))) eqn:Ec; cbn [negb].
+  - cbn [s_out_open s_in_open s_in_buf upd_chan]. repeat split.
+    match goal with |- s_out_open (if s_out_open ?y then _ else _) = false => destruct (s_out_open y) eqn:E; [reflexivity | exact E] end.
+  - exact (B2 eq_refl).
 Qed.
 
-Lemma set_state_boundary s s1 next : Boundary s -> Same s s1 -> is_connected (s_st s) = true -> Boundary (set_state s1 next).
+Lemma set_state_with_disconnects s next : is_connected next = false -> Boundary s ->
+  let s' := set_state_with dr s next in
+  s_st s' = next /\ s_out_open s' = false /\ s_in_open s' = false /\ s_in_buf s' = [].
+Proof.
+  intros Hn Hb. unfold set_state_with. rewrite Hn. cbn [negb].
+  destruct (is_connected (s_st s)) eqn:Ec.
+  - destruct (hd_disconnects s Hb Ec) as (A1 & A2 & A3).
+    destruct (s_pending_stop _); cbn; repeat split; assumption.
+  - destruct Hb as [_ Hd]. destruct (Hd Ec) as (D1 & D2 & D3). destruct (s_pending_stop s); cbn; repeat split; assumption.
+Qed.
+
+Lemma set_state_with_boundary s s1 next : Boundary s -> Same s s1 -> is_connected (s_st s) = true -> Boundary (set_state_with dr s1 next).
 Proof.
   intros Hb Hs Hc.
   assert (Hb1 : Boundary s1).
@@ -365,11 +401,39 @@ Proof.
     - rewrite S1, S2. apply B1; exact H.
     - rewrite S1, S2, S3. apply B2; exact H. }
   destruct (is_connected next) eqn:En.
-  - unfold set_state, set_state_with. rewrite En. cbn [negb]. split; cbn; intros H; [|congruence].
+  - unfold set_state_with. rewrite En. cbn [negb]. split; cbn; intros H; [|congruence].
     destruct Hs as (S1 & S2 & _). destruct Hb as [B1 _]. rewrite S1, S2. apply B1; exact Hc.
-  - destruct (set_state_disconnects s1 next En Hb1) as (A1 & A2 & A3 & A4).
+  - destruct (set_state_with_disconnects s1 next En Hb1) as (A1 & A2 & A3 & A4).
     split; intros H; rewrite A1 in H; [congruence|]. repeat split; assumption.
 Qed.
+
+Lemma incoming_with_boundary s m : Boundary s -> Boundary (incoming_with dr s m).
+Proof.
+  intros Hb. unfold incoming_with. destruct (is_connected (s_st s)) eqn:Ec; cbn [negb]; [|exact Hb].
+  destruct m as [mm|]; [|exact Hb].
+  destruct (state_fix_msg_in (s_st s) s mm) as [s1 next] eqn:E.
+  apply (set_state_with_boundary s); [exact Hb | eapply fr_state_fix_msg_in; [exact E | apply same_refl] | exact Ec].
+Qed.
+End BoundaryDrain.
+
+Lemma drain_boundary : forall fuel s, Boundary s -> Boundary (drain_message_in fuel s).
+Proof.
+  induction fuel as [|f IH]; intros s Hb; cbn [drain_message_in]; [exact Hb|].
+  destruct (negb (s_in_open s)) eqn:Ei; [exact Hb|]. destruct (s_in_buf s) as [|m r] eqn:Eb; [exact Hb|].
+  apply IH. apply (incoming_with_boundary (drain_message_in f) IH).
+  (* taking one frame off the buffer keeps Boundary: the buffer is non-empty, so the session is connected *)
+  destruct Hb as [B1 B2]. split; cbn [s_st upd_chan s_out_open s_in_open s_in_buf]; intros H.
+  - apply B1; exact H.
+  - destruct (B2 H) as (_ & _ & D3). rewrite D3 in Eb. discriminate.
+Qed.
+
+Lemma set_state_disconnects s next : is_connected next = false -> Boundary s ->
+  let s' := set_state s next in
+  s_st s' = next /\ s_out_open s' = false /\ s_in_open s' = false /\ s_in_buf s' = [].
+Proof. intros Hn Hb. unfold set_state. apply set_state_with_disconnects; [intros x Hx; apply drain_boundary; exact Hx | exact Hn | exact Hb]. Qed.
+
+Lemma set_state_boundary s s1 next : Boundary s -> Same s s1 -> is_connected (s_st s) = true -> Boundary (set_state s1 next).
+Proof. intros Hb Hs Hc. unfold set_state. apply (set_state_with_boundary drain (fun x Hx => drain_boundary _ x Hx) s); assumption. Qed.
 
 Lemma clear_logs_boundary s : Boundary s -> Boundary (clear_logs s).
 Proof. intros H. exact H. Qed.
